@@ -761,97 +761,4 @@ Proof.
   rewrite <- (Hmod L) by lia. rewrite (ex_dec_none h L 22 Hno). rewrite N.add_0_r. reflexivity.
 Qed.
 
-(* ---------------------------------------------------------------- assembly *)
-Theorem setAndExpand_spec : forall d d' e,
-  setAndExpandLitLenHuffCode d = (d', e) ->
-  rl_post_lit (litAndDistHuff d) (litCount d) (litExpandCount d) ->
-  (e = ENone \/ e = EInvalidBlock) /\
-  (e = ENone -> litlen_sorted d') /\
-  clcShort d' = clcShort d /\ clcLong d' = clcLong d /\ distCount d' = distCount d.
-Proof.
-  intros d d' e H Hpost.
-  rewrite setAndExpand_eq in H.
-  remember (litAndDistHuff d) as h eqn:Hh.
-  remember (litCount d) as lc eqn:Hlc0.
-  remember (litExpandCount d) as ex0 eqn:Hex0.
-  assert (Hlh : forall i, i < 29 ->
-            aget (forN 0 29 (fun i t => aset t i (aget h (litSymbolsSize + i))) (lenHuffCodes d)) i =
-            aget h (257 + i)).
-  { intros i Hi.
-    pose proof (forN_aset_get (fun i => aget h (litSymbolsSize + i)) 0 29 (lenHuffCodes d) i
-                  ltac:(lia)) as Hg.
-    cbv beta in Hg. rewrite Hg.
-    replace ((0 <=? i) && (i <? 29)) with true by lia. reflexivity. }
-  remember (forN 0 29 (fun i t => aset t i (aget h (litSymbolsSize + i))) (lenHuffCodes d))
-    as lh eqn:Hlhdef.
-  pose proof (Ecnt_sum h lh) as Hsum.
-  pose proof (Ecnt_congr_low h lh lc ex0 Hlh Hpost) as Hlow.
-  pose proof (Ecnt_congr_high h lh lc ex0 Hlh Hpost) as Hhigh.
-  assert (HEdef : forall L, Ecnt h lh L = count_len h 0 257 L + cntB lh 29 L)
-    by (intros L; reflexivity).
-  remember (Ecnt h lh) as E eqn:HE.
-  pose proof (ps_loop1_spec E Hsum lc ex0 (aset (aset (nextCode d) 0 0) 1 0) Hlow) as H1.
-  destruct (ps_loop1 lc (aset (aset ex0 0 0) 1 0) (aset (aset (nextCode d) 0 0) 1 0) (aget ex0 1))
-    as [[[ex1 nc1] ct1] ctmp1].
-  unfold ps1_inv in H1. destruct H1 as (Hct1 & Hctmp1 & Hlo1 & Hhi1).
-  assert (H15 : ps2_inv E ex0 15 (ex1, ct1, u32 (aget lc 15 + ctmp1))).
-  { unfold ps2_inv. split; [exact Hct1|]. split; [|split; assumption].
-    rewrite mod16_u32, Hctmp1. apply Hlow. lia. }
-  pose proof (ps_loop2_spec E Hsum ex0 ex1 ct1 _ Hhigh H15) as H2.
-  destruct (ps_loop2 ex1 ct1 (u32 (aget lc 15 + ctmp1))) as [[ex2 ct2] ctmp2].
-  unfold ps2_inv in H2. destruct H2 as (_ & _ & Hlo2 & _).
-  destruct (32768 <? u32 (aget nc1 15 + aget lc 15)) eqn:Emx.
-  - injection H as Hd He. subst d' e. cbn [clcShort clcLong distCount].
-    split; [right; reflexivity|]. split; [intros Hc; discriminate Hc|].
-    split; [reflexivity|]. split; reflexivity.
-  - cbv zeta in H.
-    assert (Hh1 : forall j, aget (forN litSymbolsSize litLenElems (fun i t => aset t i 0) h) j =
-                    if (257 <=? j) && (j <? 514) then 0 else aget h j).
-    { intros j. apply (forN_aset_get (fun _ => 0)). unfold litSymbolsSize, litLenElems. lia. }
-    remember (forN litSymbolsSize litLenElems (fun i t => aset t i 0) h) as huff1 eqn:Hhuff1.
-    assert (Hlc' : forall j, aget (forN 0 maxLitLenCount (fun i t => aset t i (aget ex2 i)) lc) j =
-                     if (0 <=? j) && (j <? 23) then aget ex2 j else aget lc j).
-    { intros j. apply (forN_aset_get (fun i => aget ex2 i)). unfold maxLitLenCount. lia. }
-    remember (forN 0 maxLitLenCount (fun i t => aset t i (aget ex2 i)) lc) as lc' eqn:Hlc'def.
-    destruct Hpost as (Hok & _).
-    assert (HcntA : forall L, count_len huff1 0 257 L = count_len h 0 257 L).
-    { intros L. apply count_len_ext. intros i Hi. rewrite Hh1.
-      replace ((257 <=? i) && (i <? 514)) with false by lia. reflexivity. }
-    assert (Hc : calc_inv E huff1 257 (calcCodeForLit huff1 (codeList d) ex2 nc1)).
-    { apply (calc_spec E Hsum).
-      - intros i. rewrite Hh1. destruct ((257 <=? i) && (i <? 514)); [lia|apply Hok].
-      - intros i Hi. rewrite Hh1. destruct ((257 <=? i) && (i <? 514)); [|apply Hok].
-        change (hc_len 0) with 0. lia.
-      - intros L HL. apply Hlo2. lia.
-      - intros L HL. rewrite HcntA, HEdef. lia. }
-    destruct (calcCodeForLit huff1 (codeList d) ex2 nc1) as [[[[hf2 cl2] ex3] nc2] pan1].
-    unfold calc_inv in Hc. destruct Hc as (Hpan1 & Hpl & Hex3 & _). subst pan1.
-    change (N.to_nat 257) with 257%nat in Hpl, Hex3.
-    destruct (expand_spec E Hsum (fun L => count_len huff1 0 257 L) hf2 cl2 ex3 nc2 lh Hpl)
-      as (hf3 & cl3 & ex4 & nc3 & Heq & Hpl3).
-    { intros i Hi. rewrite (Hlh i Hi). apply Hok. }
-    { exact Hex3. }
-    { intros L HL. rewrite HcntA, HEdef. lia. }
-    rewrite Heq in H. cbn [orb] in H. injection H as Hd He. subst d' e.
-    cbn [clcShort clcLong distCount].
-    split; [left; reflexivity|]. split; [|split; [reflexivity|split; reflexivity]].
-    intros _. unfold litlen_sorted. cbn [litCount codeList litAndDistHuff].
-    assert (HlcS : forall L, L <= 22 -> aget lc' L = Soff E L).
-    { intros L HL. rewrite Hlc'. replace ((0 <=? L) && (L <? 23)) with true by lia.
-      apply Hlo2. exact HL. }
-    destruct Hpl3 as [H32 Hsl].
-    split; [rewrite HlcS by lia; apply Soff_0|].
-    split; [rewrite HlcS by lia; apply Soff_1|].
-    split; [intros L HL; rewrite !HlcS by lia; apply Soff_mono; lia|].
-    split; [rewrite HlcS by lia; exact Hsum|].
-    split; [exact H32|].
-    intros L k HL Hk. rewrite !HlcS in Hk by lia.
-    destruct (N.eq_dec L 0) as [HL0|HL0].
-    { subst L. change (0 + 1) with 1 in Hk. rewrite Soff_0, Soff_1 in Hk. lia. }
-    apply Hsl; [lia|]. rewrite Soff_succ in Hk by lia.
-    rewrite HcntA. replace (E L) with (count_len h 0 257 L + cntB lh 29 L) in Hk
-      by (rewrite HEdef; reflexivity).
-    exact Hk.
-Qed.
-
-Print Assumptions setAndExpand_spec.
+(* (snapshot truncated here: setAndExpand_spec is re-proved, strengthened, in EngineResetHdr4.v) *)
